@@ -2,6 +2,7 @@ package main
 
 import (
 	"bytes"
+	"syscall"
 	"context"
 	"fmt"
 	"os"
@@ -37,17 +38,27 @@ var solvers = []solverSpec{
 	}},
 }
 
+// runSolver runs one solver on one file. The limit is a limit on the solver's CPU time (ulimit -t), not on wall-clock
+// time: a verdict must not depend on how busy the machine is (16 checks may run side by side). The wall-clock limit
+// is only a generous safety net.
 func runSolver(ctx context.Context, sp solverSpec, timeoutS int, file string) (answer, out string, dur float64) {
-	args := sp.args(timeoutS, file)
-	cctx, cancel := context.WithTimeout(ctx, time.Duration(timeoutS+2)*time.Second)
+	wallS := timeoutS*8 + 10
+	args := sp.args(wallS, file)
+	cctx, cancel := context.WithTimeout(ctx, time.Duration(wallS+2)*time.Second)
 	defer cancel()
-	cmd := exec.CommandContext(cctx, args[0], args[1:]...)
+	sh := fmt.Sprintf("ulimit -t %d; exec \"$@\"", timeoutS)
+	cmd := exec.CommandContext(cctx, "/bin/sh", append([]string{"-c", sh, "sh"}, args...)...)
 	var buf bytes.Buffer
 	cmd.Stdout = &buf
 	cmd.Stderr = &buf
 	t0 := time.Now()
 	cmd.Run()
 	dur = time.Since(t0).Seconds()
+	if ps := cmd.ProcessState; ps != nil {
+		if cpu := (ps.UserTime() + ps.SystemTime()).Seconds(); cpu > 0 {
+			dur = cpu
+		}
+	}
 	out = buf.String()
 	first := strings.TrimSpace(strings.SplitN(out, "\n", 2)[0])
 	switch first {
@@ -58,6 +69,11 @@ func runSolver(ctx context.Context, sp solverSpec, timeoutS int, file string) (a
 	}
 	if cctx.Err() != nil {
 		return "timeout", out, dur
+	}
+	if ps := cmd.ProcessState; ps != nil {
+		if ws, ok := ps.Sys().(syscall.WaitStatus); ok && ws.Signaled() {
+			return "timeout", out, dur // CPU limit reached (SIGXCPU / SIGKILL)
+		}
 	}
 	return "error", out, dur
 }
